@@ -93,10 +93,10 @@ type Chain struct {
 	Keys     map[string]*storetypes.KVStoreKey
 	// LastExportPanic: text of a panic recovered while exporting this chain's genesis (set by the state tap).
 	LastExportPanic string
-	DB       dbm.DB
-	Height   int64
-	AppHash  []byte
-	initErr  interface{}
+	DB              dbm.DB
+	Height          int64
+	AppHash         []byte
+	initErr         interface{}
 }
 
 var prefixSet string
@@ -376,6 +376,7 @@ type TxResult struct {
 	Data      []byte
 	Events    []abci.Event
 	TxHash    [32]byte
+	GasUsed   int64
 }
 
 func (r *TxResult) OK() bool { return r.Code == 0 }
@@ -430,7 +431,7 @@ func (c *Chain) DeliverBlock(txs [][]byte) ([]TxResult, error) {
 	c.AppHash = append([]byte(nil), res.AppHash...)
 	out := make([]TxResult, len(res.TxResults))
 	for i, r := range res.TxResults {
-		out[i] = TxResult{Code: r.Code, Codespace: r.Codespace, Log: r.Log, Data: r.Data, Events: r.Events, TxHash: sha256.Sum256(txs[i])}
+		out[i] = TxResult{Code: r.Code, Codespace: r.Codespace, Log: r.Log, Data: r.Data, Events: r.Events, TxHash: sha256.Sum256(txs[i]), GasUsed: r.GasUsed}
 	}
 	return out, nil
 }
